@@ -172,7 +172,9 @@ def e2e_suite(ctx: Ctx, n: int) -> None:
 
 def enter_fault_suite(ctx: Ctx) -> None:
     """The call fails while it is still setting the run up (after the manager process of a non-SYNC run was started): an extender
-    or api_data value that cannot be sent to the manager process.  The call must raise and leave no process or thread behind."""
+    or api_data value that cannot be sent to the manager process.  The call must raise and leave no process or thread behind -
+    at the moment it raises, i.e. also while the caller still holds the exception object (rr.exc keeps it, with its traceback,
+    alive during the look: clean-up that only happens when the garbage collector finalises the run's objects does not count)."""
     from mloda.steward import Extender, ExtenderHook
 
     class LockedExtender(Extender):
